@@ -593,6 +593,7 @@ func threadInfo(fn *ssa.Function) map[Edge]*ssa.BasicBlock {
 		var phi *ssa.Phi
 		mode := ""
 		var op token.Token
+		var intK int64
 		switch x := cond.(type) {
 		case *ssa.Phi:
 			if x.Block() == t {
@@ -608,6 +609,15 @@ func threadInfo(fn *ssa.Function) map[Edge]*ssa.BasicBlock {
 				if s, isS := ConstString(x.Y); isS && s == "" {
 					if p, isPhi := x.X.(*ssa.Phi); isPhi && p.Block() == t && x.Block() == t {
 						phi, mode, op = p, "empty", x.Op
+					}
+				}
+			}
+			// an index result compared with a constant: every incoming value is a constant or a loop index (>= 0)
+			if phi == nil {
+				if k, isK := ConstInt(x.Y); isK {
+					if p, isPhi := x.X.(*ssa.Phi); isPhi && p.Block() == t && x.Block() == t {
+						phi, mode, op = p, "int", x.Op
+						intK = k
 					}
 				}
 			}
@@ -635,6 +645,34 @@ func threadInfo(fn *ssa.Function) map[Edge]*ssa.BasicBlock {
 				if kn {
 					outcome, known = isNil == (op == token.EQL), true
 				}
+			case "int":
+				cmp := func(n int64) (bool, bool) {
+					switch op {
+					case token.EQL:
+						return n == intK, true
+					case token.NEQ:
+						return n != intK, true
+					case token.LSS:
+						return n < intK, true
+					case token.LEQ:
+						return n <= intK, true
+					case token.GTR:
+						return n > intK, true
+					case token.GEQ:
+						return n >= intK, true
+					}
+					return false, false
+				}
+				if n, isC := ConstInt(e); isC {
+					outcome, known = cmp(n)
+				} else if NonNegativeIndex(e) {
+					// all values >= 0 give the same outcome?
+					a, okA := cmp(0)
+					b, okB := cmp(1 << 40)
+					if okA && okB && a == b && (intK <= 0) {
+						outcome, known = a, true
+					}
+				}
 			case "empty":
 				if s, isS := ConstString(e); isS {
 					outcome, known = (s == "") == (op == token.EQL), true
@@ -656,6 +694,42 @@ func threadInfo(fn *ssa.Function) map[Edge]*ssa.BasicBlock {
 		}
 	}
 	return m
+}
+
+// NonNegativeIndex: v is the index variable of a range loop (rangeindex phi + 1) or a counter that starts
+// at a non-negative constant and only grows by positive constants.
+func NonNegativeIndex(v ssa.Value) bool {
+	if bo, ok := v.(*ssa.BinOp); ok && bo.Op == token.ADD {
+		if one, isC := ConstInt(bo.Y); isC && one >= 0 {
+			if phi, isPhi := bo.X.(*ssa.Phi); isPhi {
+				if phi.Comment == "rangeindex" {
+					return true
+				}
+				return NonNegativeIndex(phi)
+			}
+		}
+		return false
+	}
+	phi, ok := v.(*ssa.Phi)
+	if !ok || len(phi.Edges) == 0 {
+		return false
+	}
+	for _, e := range phi.Edges {
+		if k, isC := ConstInt(e); isC {
+			if k < 0 {
+				return false
+			}
+			continue
+		}
+		bo, isBo := e.(*ssa.BinOp)
+		if !isBo || bo.Op != token.ADD || bo.X != ssa.Value(phi) {
+			return false
+		}
+		if d, isC := ConstInt(bo.Y); !isC || d < 0 {
+			return false
+		}
+	}
+	return true
 }
 
 // NonEmptyString: v is a string that cannot be empty: a non-empty constant, a concatenation with one, or
@@ -1165,6 +1239,9 @@ func HoldsAt(v ssa.Value, want bool, x *ssa.BasicBlock) bool {
 			return true
 		}
 	}
+	if holdsDepth == 0 && holdsPathwise(v, want, x) {
+		return true
+	}
 	// v may be one of the values merged into a boolean phi that a dominating branch tested
 	// (`a && b` lowers to phi [false, b]): on the phi's true edge b is true
 	if holdsDepth > 2 {
@@ -1219,6 +1296,115 @@ func HoldsAt(v ssa.Value, want bool, x *ssa.BasicBlock) bool {
 }
 
 var holdsDepth int
+
+// holdsPathwise: on every consistent acyclic path from the entry to x the branch outcomes taken fix v
+// to want. A path is consistent if it never takes both outcomes of one boolean SSA value; the value a
+// boolean phi has is read off the predecessor the path came from. Every execution that reaches x has a
+// loop-erased version among these paths whose facts concern the current instances of the values, so the
+// answer is sound; it is more precise than edge dominance because it is path-sensitive
+// (`if a && b {continue}; if a { /* here b is false */ }`). Gives up (false) on large path counts.
+func holdsPathwise(v ssa.Value, want bool, x *ssa.BasicBlock) bool {
+	fn := x.Parent()
+	if fn == nil || len(fn.Blocks) == 0 || len(fn.Blocks) > 120 {
+		return false
+	}
+	// quick reject: v must be mentioned by some branch or boolean phi
+	base := func(c ssa.Value) (ssa.Value, bool) {
+		neg := false
+		for {
+			if u, ok := c.(*ssa.UnOp); ok && u.Op == token.NOT {
+				c, neg = u.X, !neg
+				continue
+			}
+			return c, neg
+		}
+	}
+	vb, vneg := base(v)
+	wantB := want != vneg
+	thr := threadInfo(fn)
+	infeasible := infeasibleEdges(fn)
+	budget := 60000
+	known := map[ssa.Value]bool{}
+	onPath := map[*ssa.BasicBlock]bool{}
+	reached := false
+	ok := true
+	var dfs func(b, via *ssa.BasicBlock)
+	dfs = func(b, via *ssa.BasicBlock) {
+		if !ok {
+			return
+		}
+		budget--
+		if budget < 0 {
+			ok = false
+			return
+		}
+		if b == x {
+			reached = true
+			if val, has := known[vb]; !has || val != wantB {
+				ok = false
+			}
+			return
+		}
+		onPath[b] = true
+		defer delete(onPath, b)
+		succs := b.Succs
+		var cond ssa.Value
+		condNeg := false
+		if len(b.Instrs) > 0 && len(b.Succs) == 2 && b.Succs[0] != b.Succs[1] {
+			if iff, isIf := b.Instrs[len(b.Instrs)-1].(*ssa.If); isIf {
+				cond, condNeg = base(iff.Cond)
+				// a boolean phi of this block: its value on this path
+				if phi, isPhi := cond.(*ssa.Phi); isPhi && phi.Block() == b && via != nil {
+					for i, p := range b.Preds {
+						if p == via {
+							e, eneg := base(phi.Edges[i])
+							if k, isC := ConstBool(e); isC {
+								// constant: only one way out
+								val := (k != eneg) != condNeg
+								if val {
+									succs = []*ssa.BasicBlock{b.Succs[0]}
+								} else {
+									succs = []*ssa.BasicBlock{b.Succs[1]}
+								}
+								cond = nil
+							} else {
+								cond, condNeg = e, condNeg != eneg
+							}
+							break
+						}
+					}
+				}
+			}
+		}
+		if via != nil {
+			if only, forced := thr[Edge{via, b}]; forced {
+				succs = []*ssa.BasicBlock{only}
+			}
+		}
+		for _, sc := range succs {
+			if onPath[sc] || infeasible[Edge{b, sc}] {
+				continue
+			}
+			if cond != nil && len(b.Succs) == 2 {
+				val := (sc == b.Succs[0]) != condNeg // value of cond on this edge
+				if prev, has := known[cond]; has {
+					if prev != val {
+						continue
+					}
+					dfs(sc, b)
+				} else {
+					known[cond] = val
+					dfs(sc, b)
+					delete(known, cond)
+				}
+				continue
+			}
+			dfs(sc, b)
+		}
+	}
+	dfs(fn.Blocks[0], nil)
+	return ok && reached
+}
 
 // InLoop reports whether block b lies on a CFG cycle.
 func InLoop(b *ssa.BasicBlock) bool {
